@@ -480,6 +480,12 @@ theorem missing_name_rejected {cls : Cls} {vtName vt : String} {req : List Strin
     parseAs cls (.mk attrs content) = .error .attribute :=
   parseAs_of_classifyAs_err cls attrs content _ (classifyAs_noName T attrs hvt hreq hn hopt)
 
+/-- the classes of the value types for which PS3.3 C.17.3 makes the concept name mandatory (and CONTAINER) are
+not in the regenerated list of optional-name classes, so `missing_name_rejected` applies to them -/
+theorem name_mandatory_classes :
+    ∀ c ∈ [Cls.text, .num, .code, .datetime, .date, .time, .uidref, .pname, .container],
+      Gen.srOptionalNameClasses.contains c.pyName = false := by decide
+
 /-! ## Non-vacuity: concrete items built by the model's constructors -/
 
 private def nm : Coded := { value := "121071", scheme := "DCM", meaning := "Finding", version := none }
